@@ -182,7 +182,7 @@ fn scenario(case: Case) -> impl Fn(&mut Chooser) -> Result<u64, Violation> + Syn
 pub fn run(tier: Tier) -> i32 {
     crate::engine::watch::start("C14", tier.name(), Duration::from_secs(60), crate::engine::watch::OnExpiry::Machinery);
     let mut rep = Report::new("C14", tier, "model_checking");
-    let h = tier.pick(8usize, 10usize);
+    let h = tier.pick(8usize, 11usize);
     let cases = vec![
         Case { horizon: h, step_ms: T_MS / 4 + 1, check_liveness: true },
         Case { horizon: h, step_ms: T_MS / 4, check_liveness: false },
